@@ -122,8 +122,8 @@ theorem canon_wname (img : ImgData) (n : TNode) (h : NodeOK img n) :
 /-- one member: the iterator reports the node and stands in front of the next member -/
 theorem iterLoop_node (img : ImgData) (n : TNode) (c want : Nat) (hw : 1 ≤ want) (h : NodeOK img n) (b rest : Bytes)
     (hb : entryBytes img n c = some b) :
-    ∃ x s1 skip1, IterEntry.view x = viewOf img n ∧ s1.drop skip1 = rest ∧
-      ∀ f s0 skip acc, s0.drop skip = b ++ rest →
+    ∃ x s1 skip1, IterEntry.view x = viewOf img n ∧ istreamSkip s1 skip1 = some rest ∧
+      ∀ f s0 skip acc, istreamSkip s0 skip = some (b ++ rest) →
         iterLoop {} want (f + 1) s0 skip acc = iterLoop {} want f s1 skip1 (acc ++ [x]) := by
   obtain ⟨hd, hwr, _, hbytes⟩ := entryBytes_some img n c h
   rw [hbytes] at hb
@@ -144,12 +144,12 @@ theorem iterLoop_node (img : ImgData) (n : TNode) (c want : Nat) (hw : 1 ≤ wan
     obtain ⟨tg, htg, _⟩ := h.hardTarget hh
     rw [if_neg hnr, List.append_nil] at hb
     subst hb
-    refine ⟨⟨joinSlash n.path, n.mode, true, n.uid, n.gid, n.modTime, 0, n.target, none, 0, 0, []⟩, rest, 0, ?_, rfl, ?_⟩
+    refine ⟨⟨joinSlash n.path, n.mode, true, n.uid, n.gid, n.modTime, 0, n.target, none, 0, 0, []⟩, rest, 0, ?_, istreamSkip_zero _, ?_⟩
     · have h3 : ¬ (S_IFLNK = S_IFCHR ∨ S_IFLNK = S_IFBLK) := by decide
       have h4 : ¬ (S_IFLNK = S_IFREG) := by decide
       simp only [IterEntry.view, viewOf, hh, hl, h3, h4, if_true, if_false, Option.map_none]
     · intro f s0 skip acc hs
-      rw [iterLoop, hs, hrt rest]
+      rw [iterLoop, hs]; dsimp only []; rw [hrt rest]
       have hwh : (wentryOf img n).hardLink = true := hh
       simp only [decodedOf, hwh, if_true, Bool.false_eq_true, if_false, Option.getD_some, hcan]
       have h1 : fmt (S_IFLNK + 0o777) = S_IFLNK := by decide
@@ -171,9 +171,9 @@ theorem iterLoop_node (img : ImgData) (n : TNode) (c want : Nat) (hw : 1 ≤ wan
       · have h3 : ¬ (S_IFREG = S_IFCHR ∨ S_IFREG = S_IFBLK) := by decide
         have h4 : ¬ (S_IFREG = S_IFLNK) := by decide
         simp only [IterEntry.view, viewOf, hh, hreg, h3, h4, if_true, if_false, Option.map_some, Bool.false_eq_true]
-      · exact List.drop_left' (zeros_length _)
+      · exact istreamSkip_exact _ _ _ (zeros_length _)
       · intro f s0 skip acc hs
-        rw [iterLoop, hs, List.append_assoc, hrt]
+        rw [iterLoop, hs]; dsimp only []; rw [List.append_assoc, hrt]
         simp only [decodedOf, hwh, Bool.false_eq_true, if_false, Option.getD_some, hcan, hxs]
         have hwm : (wentryOf img n).mode = n.mode := rfl
         have h4 : ¬ (S_IFREG = S_IFLNK) := by decide
@@ -187,10 +187,10 @@ theorem iterLoop_node (img : ImgData) (n : TNode) (c want : Nat) (hw : 1 ≤ wan
       subst hb
       refine ⟨⟨joinSlash n.path, n.mode, false, n.uid, n.gid, n.modTime, 0, if fmt n.mode = S_IFLNK then n.target else none,
         none, if fmt n.mode = S_IFCHR ∨ fmt n.mode = S_IFBLK then (img.dev n.path).1 else 0,
-        if fmt n.mode = S_IFCHR ∨ fmt n.mode = S_IFBLK then (img.dev n.path).2 else 0, img.xattr n.path⟩, rest, 0, ?_, rfl, ?_⟩
+        if fmt n.mode = S_IFCHR ∨ fmt n.mode = S_IFBLK then (img.dev n.path).2 else 0, img.xattr n.path⟩, rest, 0, ?_, istreamSkip_zero _, ?_⟩
       · simp only [IterEntry.view, viewOf, hh, hreg, if_false, Option.map_none, Bool.false_eq_true]
       · intro f s0 skip acc hs
-        rw [iterLoop, hs, hrt]
+        rw [iterLoop, hs]; dsimp only []; rw [hrt]
         simp only [decodedOf, hwh, Bool.false_eq_true, if_false, Option.getD_some, hcan, hxs]
         have hwm : (wentryOf img n).mode = n.mode := rfl
         have hm : (if fmt n.mode = S_IFLNK then S_IFLNK + 0o777 else n.mode) = n.mode := by
@@ -231,7 +231,7 @@ theorem readHeader_terminator : readHeaderWith {} (zeros 1024) = .eof := by
 /-- the whole archive: the iterator reports exactly the nodes, in order, and then the end of the archive -/
 theorem iterLoop_archive (img : ImgData) (want : Nat) (hw : 1 ≤ want) :
     ∀ (t : List TNode) (c f : Nat) (s0 : Bytes) (skip : Nat) (acc : List IterEntry), (∀ n ∈ t, NodeOK img n) →
-      s0.drop skip = sqfs2tarLoop img t c → t.length + 1 ≤ f →
+      istreamSkip s0 skip = some (sqfs2tarLoop img t c) → t.length + 1 ≤ f →
       ∃ es, iterLoop {} want f s0 skip acc = (acc ++ es, .eof) ∧ es.map IterEntry.view = t.map (viewOf img) := by
   intro t
   induction t with
@@ -247,8 +247,8 @@ theorem iterLoop_archive (img : ImgData) (want : Nat) (hw : 1 ≤ want) :
     have hn := hok n (by simp)
     obtain ⟨hd, _, _, hbytes⟩ := entryBytes_some img n c hn
     obtain ⟨x, s1, skip1, hview, hdrop, hstep⟩ := iterLoop_node img n c want hw hn _ (sqfs2tarLoop img t (c + 1)) hbytes
-    have hs' : s0.drop skip = (hd ++ (if fmt n.mode = S_IFREG then
-        img.content n.path ++ zeros (padding (img.content n.path).length) else [])) ++ sqfs2tarLoop img t (c + 1) := by
+    have hs' : istreamSkip s0 skip = some ((hd ++ (if fmt n.mode = S_IFREG then
+        img.content n.path ++ zeros (padding (img.content n.path).length) else [])) ++ sqfs2tarLoop img t (c + 1)) := by
       rw [hs, sqfs2tarLoop, hbytes]; rfl
     rw [hstep f' s0 skip acc hs']
     obtain ⟨es, hes, hviews⟩ := ih (c + 1) f' s1 skip1 (acc ++ [x]) (fun m hm => hok m (List.mem_cons_of_mem _ hm)) hdrop
@@ -275,7 +275,7 @@ theorem iterate_sqfs2tar (img : ImgData) (t : List TNode) (hok : ∀ n ∈ t, No
   unfold iterate iterateWith sqfs2tar
   have hl := sqfs2tarLoop_length img t 0 hok
   obtain ⟨es, h1, h2⟩ := iterLoop_archive img 512 (by omega) t 0 ((sqfs2tarLoop img t 0).length / 512 + 2)
-    (sqfs2tarLoop img t 0) 0 [] hok rfl (by omega)
+    (sqfs2tarLoop img t 0) 0 [] hok (istreamSkip_zero _) (by omega)
   exact ⟨es, by simpa using h1, h2⟩
 
 end Sqfs.Tar
